@@ -5,7 +5,53 @@ from bounded import C07_mask as base
 from bounded.common import Bounded, load_known
 
 MODULE = "bounded.C06_daily_rows"
-replay = base.replay
+
+
+def calendar_case(case):
+    """a year of daily readings stamped at a fixed hour (local clock or UTC clock), carried in ONE frame with hourly temperatures, across both clock
+    changes: the data object has exactly one row per local day of the readings, and the real predict() returns exactly those rows, finite"""
+    import numpy as np
+    import pandas as pd
+    import opendsm.eemeter as em
+    from opendsm.eemeter.models.daily.model import DailyModel
+    from bounded.C01_roundtrip import param_doc
+    tz = case["tz"]
+    hi = pd.date_range("2022-01-01", "2023-01-01", freq="h", tz=tz, inclusive="left")
+    temp = pd.Series(55 + 20 * np.sin(np.arange(len(hi)) / 1400.0), index=hi, name="temperature")
+    if case["clock"] == "local":
+        stamps = pd.DatetimeIndex([d + pd.Timedelta(hours=case["hour"]) for d in pd.date_range("2022-01-01", periods=365, freq="D", tz=tz)])
+        stamps = stamps[stamps.isin(hi)]
+    else:
+        stamps = pd.date_range(f"2022-01-01 {case['hour']:02d}:00", periods=364, freq="24h", tz="UTC").tz_convert(tz)
+    obs = pd.Series(np.nan, index=hi, name="observed")
+    obs.loc[stamps] = 30.0 + np.arange(len(stamps)) % 7
+    data = em.DailyReportingData(pd.concat([obs, temp], axis=1), is_electricity_data=True)
+    f = data.df
+    bad = []
+    days = pd.Index(stamps.date).unique()
+    dup = int(pd.Index(f.index.date).duplicated().sum())
+    if dup:
+        bad.append(f"{dup} local days appear twice in the data object's frame ({len(f)} rows for {len(days)} days of readings)")
+    if abs(len(f) - len(days)) > 1:
+        bad.append(f"{len(f)} rows for {len(days)} local days of readings")
+    m = DailyModel.from_dict(param_doc("daily", "hdd_tidd_cdd", "unsplit", False))
+    m.baseline_timezone = f.index.tz
+    p = m.predict(data, ignore_disqualification=True)
+    if not p.index.equals(f.index):
+        bad.append("prediction index differs from the data object's frame index")
+    fin = np.isfinite(p["predicted"].astype(float)).values
+    want = np.isfinite(f["temperature"].astype(float)).values & np.isfinite(f["observed"].astype(float)).values
+    if not np.array_equal(fin, want):
+        bad.append(f"{int((fin != want).sum())} rows whose prediction is not finite exactly when temperature and usage are")
+    if case["clock"] == "local" and int(want.sum()) < len(days) - 2:
+        bad.append(f"only {int(want.sum())} of {len(days)} days carry usage and temperature")
+    return {"ok": not bad, "problems": bad}
+
+
+def replay(case):
+    if case.get("kind") == "calendar":
+        return calendar_case(case)
+    return base.replay(case)
 
 
 def run(tier="quick", seed=0):
@@ -28,4 +74,14 @@ def run(tier="quick", seed=0):
             except Exception as e:  # noqa
                 res = {"ok": False, "problems": [f"exception {type(e).__name__}: {e}"]}
             b.case("C06.daily.rows", case, res["ok"], nontrivial_key=(fam, shape, tuple(t), None if o is None else tuple(o)), detail=res["problems"])
+    cal = [{"kind": "calendar", "tz": "America/Chicago", "clock": "local", "hour": 0}, {"kind": "calendar", "tz": "America/Chicago", "clock": "local", "hour": 9}]
+    if tier == "thorough":
+        cal += [{"kind": "calendar", "tz": "Europe/Berlin", "clock": "local", "hour": 6}, {"kind": "calendar", "tz": "Australia/Sydney", "clock": "local", "hour": 9}]
+    for case in cal:
+        try:
+            res = replay(case)
+        except Exception as e:  # noqa
+            import traceback
+            res = {"ok": False, "problems": [f"exception {type(e).__name__}: {e}", traceback.format_exc()[-400:]]}
+        b.case("C06.daily.rows", case, res["ok"], nontrivial_key=("calendar", case["tz"], case["clock"], case["hour"]), detail=res["problems"])
     return b.result()
